@@ -310,6 +310,8 @@ class LRUCache(_CacheBase):
         if self._allow_cloudpickle and self.shared:
             value = cloudpickle.dumps(value)
         with self._cache_lock:
+            if key in self._cache_dict:  # re-putting a resident key refreshes it
+                self._cache_queue.remove(key)
             self._cache_dict[key] = value
             cache_size = len(self._cache_queue)
             if cache_size < self.max_size:
